@@ -169,7 +169,7 @@ mod real {
         /// patterns are fixed per process and obtained through the CLI crate's env-initialised statics).
         fn name_match(filter: char, name: &str) -> bool {
             match filter {
-                'i' => tree_sitter_cli::fuzz::EXAMPLE_INCLUDE.as_ref().map(|r| r.is_match(name)).unwrap_or(false),
+                'i' | 'b' => tree_sitter_cli::fuzz::EXAMPLE_INCLUDE.as_ref().map(|r| r.is_match(name)).unwrap_or(false),
                 'x' => tree_sitter_cli::fuzz::EXAMPLE_EXCLUDE.as_ref().map(|r| r.is_match(name)).unwrap_or(false),
                 _ => false,
             }
@@ -190,8 +190,8 @@ mod real {
                 path: run_path.to_path_buf(),
                 debug: false,
                 debug_graph: false,
-                include: if filter == 'i' { tree_sitter_cli::fuzz::EXAMPLE_INCLUDE.clone() } else { None },
-                exclude: if filter == 'x' { tree_sitter_cli::fuzz::EXAMPLE_EXCLUDE.clone() } else { None },
+                include: if filter == 'i' || filter == 'b' { tree_sitter_cli::fuzz::EXAMPLE_INCLUDE.clone() } else { None },
+                exclude: if filter == 'x' || filter == 'b' { tree_sitter_cli::fuzz::EXAMPLE_EXCLUDE.clone() } else { None },
                 file_name: None,
                 update: true,
                 open_log: false,
@@ -485,7 +485,7 @@ mod real {
     fn parse_spec_line(line: &str) -> (char, &str) {
         let w: Vec<&str> = line.split_whitespace().collect();
         let h = *w.last().unwrap();
-        let flt = if w.len() >= 2 && ["n", "i", "x", "N", "I", "X"].contains(&w[w.len() - 2]) { w[w.len() - 2].chars().next().unwrap() } else { 'n' };
+        let flt = if w.len() >= 2 && ["n", "i", "x", "b", "N", "I", "X", "B"].contains(&w[w.len() - 2]) { w[w.len() - 2].chars().next().unwrap() } else { 'n' };
         (flt, h)
     }
 
@@ -533,6 +533,25 @@ mod real {
                 cases += 1;
             }
         }
+        // strip_sexp_fields on synthetic renderings (field-like words with underscores, digits, non-ASCII, odd places)
+        {
+            let mut srng = Rng::new(seed_from_env() ^ 0x57A1);
+            let words = ["left", "a_b", "x1", "_t", "é", "a-b", "", "f", "name9_", "A"];
+            let nodes = ["(id)", "(n (m))", "(a b: (c))", "(MISSING \";\")", "(x", "("];
+            for _ in 0..300 {
+                let mut t = String::from("(root");
+                for _ in 0..srng.range(1, 6) {
+                    match srng.below(6) {
+                        0 => t.push_str(&format!(" {}", srng.pick(&nodes))),
+                        1 => t.push_str(&format!("{}: {}", srng.pick(&words), srng.pick(&nodes))),
+                        2 => t.push_str(": ("),
+                        _ => t.push_str(&format!(" {}: {}", srng.pick(&words), srng.pick(&nodes))),
+                    }
+                }
+                t.push(')');
+                writeln!(out, "strip {} {}", hx(t.as_bytes()), hx(strip_sexp_fields(&t).as_bytes())).unwrap();
+            }
+        }
         let n_gen = if tier_is_thorough() { 6000 } else { 500 };
         let files: Vec<Vec<u8>> = {
             let mut g = Gen { rng: Rng::new(seed_from_env()), world: &world, gg: gen::GrammarGen::new(&stmt.grammar_json, zoo::read_zoo_file("stmt", "samples.json").as_deref()) };
@@ -542,7 +561,8 @@ mod real {
         for (i, f) in files.iter().enumerate() {
             // 40% of the generated files are updated through a name filter (--include / --exclude)
             let flt = match frng.below(10) {
-                0 | 1 => 'i',
+                0 => 'i',
+                1 => 'b', // both --include and --exclude given: include wins
                 2 | 3 => 'x',
                 _ => 'n',
             };
